@@ -449,8 +449,8 @@ template <typename D> struct Prog {
   void observe(Obj& o) {
     const PS& p = o.ps; const Union& m = o.m;
     int q = (int) t.weighted({14, 10, 10, 8, 10, 6, 6, 6, 6, 4});
-    auto implies_doc = [&](const Union& x, const Union& y, bool strictly) {   // every disjunct of y (strictly) contained in a disjunct of x
-      for (size_t j = 0; j < y.size(); ++j) { bool f = false; for (size_t i = 0; i < x.size() && !f; ++i) f = ref::included(y[j], x[i]) && (!strictly || !ref::included(x[i], y[j])); if (!f) return false; }
+    auto implies_doc = [&](const Union& x, const Union& y, bool strictly, bool skip_empty) {   // every disjunct of y (strictly) contained in a disjunct of x
+      for (size_t j = 0; j < y.size(); ++j) { if (skip_empty && ref::is_empty(y[j])) continue;   /* an empty disjunct may or may not have been dropped by a lazy omega-reduction */ bool f = false; for (size_t i = 0; i < x.size() && !f; ++i) f = ref::included(y[j], x[i]) && (!strictly || !ref::included(x[i], y[j])); if (!f) return false; }
       return true; };
     switch (q) {
     case 0: case 1: { Obj& y = partner(o); bool eq = q == 1;
@@ -464,7 +464,7 @@ template <typename D> struct Prog {
     case 2: case 3: { Obj& y = partner(o); bool st = q == 3;
       bool r = st ? p.strictly_contains(y.ps) : p.contains(y.ps);
       c.log << "  ? " << (st ? "strictly_contains ps" : "contains ps") << idx(y) << " -> " << r << "\n";
-      bool doc = implies_doc(m, y.m, st);
+      bool doc = implies_doc(m, y.m, st, true); { bool doc2 = implies_doc(m, y.m, st, false); if (doc2 != doc && r == doc2) doc = doc2; }   // both readings accepted when Y holds an (undetected) empty disjunct
       c.check(st ? "q.strictly_contains.documented" : "q.contains.documented", r == doc, [&] { return std::string(st ? "strictly_contains" : "contains") + " answered " + (r ? "true" : "false") + " but disjunct-wise containment is " + (doc ? "true" : "false") + ": X=" + show_union(m) + " Y=" + show_union(y.m); });
       if (r) c.check("q.contains.implies_covers", u_included(y.m, m), [&] { return "entailment-based containment holds but Y is not covered: X=" + show_union(m) + " Y=" + show_union(y.m); });
       arg_unchanged(y, "contains"); arg_unchanged(o, "contains"); break; }
@@ -698,7 +698,7 @@ struct GProg {
   }
   void observe(Obj& o) {
     const PS& p = o.ps; const GUnion& m = o.m; int q = t.weighted({16, 12, 10, 8, 10, 6, 6});
-    auto doc = [&](const GUnion& x, const GUnion& y, bool strictly) { for (size_t j = 0; j < y.size(); ++j) { bool f = false; for (size_t i = 0; i < x.size() && !f; ++i) f = x[i].contains(y[j]) && (!strictly || !y[j].contains(x[i])); if (!f) return false; } return true; };
+    auto doc = [&](const GUnion& x, const GUnion& y, bool strictly, bool skip_empty) { for (size_t j = 0; j < y.size(); ++j) { if (skip_empty && y[j].empty) continue;   /* may or may not have been dropped by a lazy omega-reduction */ bool f = false; for (size_t i = 0; i < x.size() && !f; ++i) f = x[i].contains(y[j]) && (!strictly || !y[j].contains(x[i])); if (!f) return false; } return true; };
     switch (q) {
     case 0: case 1: { Obj& y = partner(o); bool eq = q == 1; if (m.size() + y.m.size() > 8) break; if (nt_steps == 0 && (nontrivial_operand(m) || nontrivial_operand(y.m))) ++nt_steps;
       bool r = eq ? p.geometrically_equals(y.ps) : p.geometrically_covers(y.ps); bool e = eq ? g_equal(m, y.m) : g_included(y.m, m);
@@ -706,7 +706,7 @@ struct GProg {
       if (r && !e && kf("KF-C09-5") && (nonint(y.m, p) || (eq && nonint(m, y.ps)))) { c.excluded("KF-C09-5"); break; }
       c.check(eq ? "grid.q.geometrically_equals" : "grid.q.geometrically_covers", r == e, [&] { return std::string(eq ? "geometrically_equals" : "geometrically_covers") + " answered " + (r ? "true" : "false") + ": X=" + g_show(m) + " Y=" + g_show(y.m); });
       arg_unchanged(y, "geometric comparison"); arg_unchanged(o, "geometric comparison"); break; }
-    case 2: case 3: { Obj& y = partner(o); bool st = q == 3; bool r = st ? p.strictly_contains(y.ps) : p.contains(y.ps); c.log << "  ? " << (st ? "strictly_contains ps" : "contains ps") << idx(y) << " -> " << r << "\n"; bool d = doc(m, y.m, st);
+    case 2: case 3: { Obj& y = partner(o); bool st = q == 3; bool r = st ? p.strictly_contains(y.ps) : p.contains(y.ps); c.log << "  ? " << (st ? "strictly_contains ps" : "contains ps") << idx(y) << " -> " << r << "\n"; bool d = doc(m, y.m, st, true); { bool d2 = doc(m, y.m, st, false); if (d2 != d && r == d2) d = d2; }
       c.check(st ? "grid.q.strictly_contains.documented" : "grid.q.contains.documented", r == d, [&] { return std::string("answered ") + (r ? "true" : "false") + ": X=" + g_show(m) + " Y=" + g_show(y.m); });
       if (r) c.check("grid.q.contains.implies_covers", g_included(y.m, m), "entailment-based containment holds but Y is not covered"); break; }
     case 4: { Obj& y = partner(o); bool r = p.is_disjoint_from(y.ps); c.log << "  ? is_disjoint_from ps" << idx(y) << " -> " << r << "\n"; c.check("grid.q.is_disjoint_from", r == g_empty(g_meet(m, y.m)), [&] { return "wrong: X=" + g_show(m) + " Y=" + g_show(y.m); }); break; }
